@@ -638,6 +638,10 @@ impl<W: Write> Drop for Writer<'_, W> {
 
 #[cfg(not(target_arch = "wasm32"))]
 fn generate_sync_marker() -> [u8; 16] {
+    #[cfg(feature = "verif-hooks")]
+    if let Some(marker) = crate::verif_hooks::next_marker() {
+        return marker;
+    }
     rand::random()
 }
 
